@@ -56,6 +56,13 @@ func (v *Vue) evalAttributes(ctx VueContext, n *html.Node) (map[string]any, erro
 			if err != nil {
 				return nil, fmt.Errorf("error evaluating attr %s: %w", boundName, err)
 			}
+			if shouldIgnoreAttr(boundName) {
+				// :v-show="x", :v-if="x": the value is a prop, never a directive of this
+				// element - as an attribute it would hand a data value to the directive's
+				// handler, which evaluates it as an expression
+				results[boundName] = boundValue
+				continue
+			}
 			if !helpers.IsTruthy(boundValue) {
 				// A falsy value keeps the attribute out of the output, but it is still
 				// the value of the prop: :count="0" passes 0, it does not leave count unset
